@@ -1,0 +1,80 @@
+//go:build verif
+
+// Package verifhook provides simulation seams for the deterministic-simulation
+// harness under /verif. With the "verif" build tag the functions forward to
+// variables the harness installs; nil means no-op.
+package verifhook
+
+import "sync"
+
+// TryLocker is the subset of sync.Mutex / sync.RWMutex used by BeforeLock.
+type TryLocker interface {
+	TryLock() bool
+	Unlock()
+}
+
+var (
+	// YieldFn is called at every Yield site when non-nil.
+	YieldFn func(owner any, site string)
+	// EventFn is called at every Event site when non-nil.
+	EventFn func(owner any, site string, a, b int64)
+	// BeforeLockFn is called before instrumented lock acquisitions when non-nil.
+	BeforeLockFn func(l TryLocker)
+
+	mu    sync.RWMutex
+	flags map[string]int
+)
+
+// Yield marks a scheduling point owned by the simulator.
+func Yield(owner any, site string) {
+	if f := YieldFn; f != nil {
+		f(owner, site)
+	}
+}
+
+// Event reports an observation to the simulator.
+func Event(owner any, site string, a, b int64) {
+	if f := EventFn; f != nil {
+		f(owner, site, a, b)
+	}
+}
+
+// BeforeLock lets a simulated task park instead of blocking on a contended lock.
+func BeforeLock(l TryLocker) {
+	if f := BeforeLockFn; f != nil {
+		f(l)
+	}
+}
+
+// Set installs a switch/knob value (0 clears it).
+func Set(flag string, v int) {
+	mu.Lock()
+	if flags == nil {
+		flags = make(map[string]int)
+	}
+	if v == 0 {
+		delete(flags, flag)
+	} else {
+		flags[flag] = v
+	}
+	mu.Unlock()
+}
+
+// Reset clears every hook function and knob.
+func Reset() {
+	YieldFn, EventFn, BeforeLockFn = nil, nil, nil
+	mu.Lock()
+	flags = nil
+	mu.Unlock()
+}
+
+// Enabled reports whether a simulation-only switch is set.
+func Enabled(flag string) bool { return Int(flag) != 0 }
+
+// Int returns a simulation-only integer knob (0 = unset).
+func Int(flag string) int {
+	mu.RLock()
+	v := flags[flag]
+	mu.RUnlock()
+	return v
+}
